@@ -68,7 +68,7 @@ def product_ob(d1, d2, F):
             return dict(status="error", detail="vacuity guard: space-major postcondition verified")
         return dict(status="discharged", backend="pyvc+z3", solver_s=time.time() - t0, canary="refuted",
                     sample=f"{ex.stmts_visited} statements executed; out[i*n2+j, c] == ite(c < {d1}, b1[i,c], b2[j,c-{d1}])")
-    return FnObligation(name, run, [DG + "make_cartesian_product"])
+    return FnObligation(name, run, [DG + "make_cartesian_product"], native_fallback=lambda: native_product({}))
 
 
 def fail(name, st, model):
@@ -160,7 +160,7 @@ def bijection_ob():
             if st != "unsat":
                 return fail(name + "." + nm, st, model) if st == "sat" else dict(status="undecided", detail=f"{nm}: z3 unknown")
         return dict(status="discharged", backend="z3", solver_s=time.time() - t0, sample="(i,j) -> i*n2+j ; k -> (k div n2, k mod n2)")
-    return FnObligation(name, run, [DG + "make_cartesian_product"])
+    return FnObligation(name, run, [DG + "make_cartesian_product"], native_fallback=lambda: native_product({}))
 
 
 def get_batch_ob(dim, cartesian, with_border):
@@ -219,7 +219,8 @@ def get_batch_ob(dim, cartesian, with_border):
                 return fail(name + ".side:" + nm, st, model)
         return dict(status="discharged", backend="pyvc+z3", solver_s=time.time() - t0,
                     sample=f"{ex.stmts_visited} statements executed; goals {sorted(goals)}")
-    return FnObligation(name, run, [DG + "CubicMeshPDENonStatio.get_batch", DG + "make_cartesian_product"])
+    return FnObligation(name, run, [DG + "CubicMeshPDENonStatio.get_batch", DG + "make_cartesian_product"],
+                        native_fallback=lambda: native_product({}))
 
 
 def obligations(tier):
